@@ -7,7 +7,7 @@
 pub mod bits;
 pub mod crc;
 pub mod dec;
-pub mod gen;
+pub mod sgen;
 pub mod md5;
 pub mod meta;
 pub mod pcm;
